@@ -19,6 +19,13 @@ Profile GetProfile(const std::string& name, bool thorough) {
   p.name = name;
   p.gen.max_stmts = thorough ? 24 : 10;
   p.gen.max_sources = thorough ? 8 : 5;
+  if (name == "C04S") {
+    p.small_graph = true;
+    p.gen.max_stmts = 5; p.gen.max_sources = 3;
+    p.gen.features = F_IMPLICIT | F_ORDERONLY | F_MULTIOUT | F_PHONY | F_DEPFILE | F_DESCRIPTION;
+    p.min_ops = 0; p.max_ops = 0; p.check_convergence = false; p.buggify = false; p.w_inflate_log = 0;
+    return p;
+  }
   if (name == "C03") {
     // no kills or interrupts: what is recorded is exactly what completed
     p.pm_cmd_fail = 40; p.pm_editor = 0; p.w_manifest_edit = 1; p.pm_tty = 100; p.w_inflate_log = 0;
@@ -132,6 +139,7 @@ struct Driver {
     }
     static const int kJ[] = {1, 2, 3, 4, 8, 0};
     p.j = kJ[H(6)];
+    if (prof.small_graph) { p.j = 0; p.targets.clear(); }
     p.k = 1;
     if (prof.pm_cmd_fail > 100) { static const int kK[] = {1, 1, 2, 3, 0}; p.k = kK[H(5)]; }
     else if (H(8) == 0) p.k = 0;
@@ -543,6 +551,28 @@ struct Driver {
   }
   std::map<int, std::vector<std::string>> known_before;
 
+  // C04 small-graph mode: which completion order did this schedule produce, and
+  // how many are possible at all (linear extensions of the dependency order)?
+  void RecordSmallGraph(const InvRecord& r) {
+    std::vector<int> cmds;
+    for (const Stmt& s : w.sc.stmts) if (s.alive && !s.phony) cmds.push_back(s.id);
+    int n = (int)cmds.size();
+    if (n == 0 || n > 8 || (int)r.spawns.size() != n) return;
+    std::vector<std::pair<uint64_t, int>> order;
+    for (auto& x : r.spawns) order.emplace_back(x.reap_seq, x.stmt);
+    std::sort(order.begin(), order.end());
+    for (auto& o : order) rr.stats.small_order += std::to_string(o.second) + ",";
+    // predecessor masks
+    std::vector<int> pred(n, 0);
+    for (int i = 0; i < n; i++) { std::set<int> cl = w.StmtClosure(cmds[i]); for (int j = 0; j < n; j++) if (cl.count(cmds[j])) pred[i] |= 1 << j; }
+    std::vector<long> dp(1 << n, 0);
+    dp[0] = 1;
+    for (int m = 0; m < (1 << n); m++) if (dp[m]) for (int i = 0; i < n; i++) if (!(m & (1 << i)) && (pred[i] & m) == pred[i]) dp[m | (1 << i)] += dp[m];
+    rr.stats.small_linext = dp[(1 << n) - 1];
+    char b[32]; snprintf(b, sizeof b, "%016llx", (unsigned long long)Hash64(w.sc.ManifestText()));
+    rr.stats.small_shape = b;
+  }
+
   void DoBuild() {
     // (K15 can delete the manifest; everything after that only repeats it)
     if (!w.k.Exists("build.ninja")) { dead = true; return; }
@@ -556,6 +586,7 @@ struct Driver {
     if (getenv("SIM_SHOW_OUTPUT")) Note("  stdout: " + r.res.out + "\n  stderr: " + r.res.err);
     if (getenv("SIM_DUMP_LOG")) { std::string lg; w.k.ReadFile(w.sc.LogDir() + ".ninja_log", &lg); Note("  .ninja_log:\n" + lg); }
     w.CheckAll(r);
+    if (prof.small_graph && r.ok()) RecordSmallGraph(r);
     {
       int ncmd = 0;
       for (const Stmt& s : w.sc.stmts) if (s.alive && !s.phony) ncmd++;
